@@ -6,11 +6,14 @@
    `patch` is itself a JSON value (any value: a non-array patch, non-object elements, missing /
    null / wrongly typed fields and unknown operations make the application fail - never crash).
    Value semantics: what add / replace / copy put into the document is a copy.
-   Not decided here (both outcomes admitted by the trace specification): `test` of numbers of
-   different kinds with the same numeric value, operations whose path is the whole document. *)
+   `test` compares as RFC 6902 section 4.6 says: numbers "are considered equal if their values are numerically equal" - an
+   integer and a non-integer spelling of the same value are equal (switch "test_kind_strict": json_object_equal's rule,
+   different kinds are never equal - json-c as found, kept as known finding D13h).
+   Not decided here (both outcomes admitted by the trace specification): operations whose path is the whole document. *)
 EXTENDS Naturals, Integers, Sequences, FiniteSets
-CONSTANT AsFoundP     \* as-found switches of json_patch.c (anti-vacuity): "string_prefix", "self_move_noop", "move_len_plus_one", "remove_escaped_key"
+CONSTANT AsFoundP     \* as-found switches of json_patch.c (anti-vacuity): "string_prefix", "self_move_noop", "move_len_plus_one", "remove_escaped_key", "test_kind_strict"
 P == INSTANCE Pointer
+SZ == INSTANCE Serializer WITH AsFoundS <- {}     \* (for the exact decimal value of a number text: DecNorm)
 Str(bytes) == [t |-> "string", s |-> bytes]
 S_op == <<111, 112>>  S_path == <<112, 97, 116, 104>>  S_from == <<102, 114, 111, 109>>  S_value == <<118, 97, 108, 117, 101>>
 S_add == <<97, 100, 100>>  S_remove == <<114, 101, 109, 111, 118, 101>>  S_replace == <<114, 101, 112, 108, 97, 99, 101>>
@@ -23,8 +26,13 @@ Member(v, k) == v.m[MemberPos(v.m, k)].v
 
 \* ---- structural equality of values (C09): object members regardless of order
 RECURSIVE EqualV(_, _)
+\* the exact decimal value of a number leaf: integers by their digits, doubles by their text (zero is zero whatever its sign)
+NumVal(v) == LET n == SZ!DecNorm(IF v.t = "int" THEN SZ!IntText(v) ELSE v.text) IN IF n.zero THEN [n EXCEPT !.neg = FALSE] ELSE n
+IsNum(v) == v.t \in {"int", "double"}
 EqualV(a, b) ==
-    IF a.t # b.t THEN FALSE
+    IF IsNum(a) /\ IsNum(b) /\ (a.t # b.t \/ a.t = "double")
+    THEN (IF "test_kind_strict" \in AsFoundP /\ a.t # b.t THEN FALSE ELSE NumVal(a) = NumVal(b))
+    ELSE IF a.t # b.t THEN FALSE
     ELSE IF a.t = "array" THEN Len(a.e) = Len(b.e) /\ \A i \in 1..Len(a.e) : EqualV(a.e[i], b.e[i])
     ELSE IF a.t = "object" THEN Len(a.m) = Len(b.m) /\ \A i \in 1..Len(a.m) :
                                    MemberPos(b.m, a.m[i].k) # 0 /\ EqualV(a.m[i].v, b.m[MemberPos(b.m, a.m[i].k)].v)
